@@ -83,6 +83,8 @@ FN_BODIES = [
     ('(b: str)', 'Note', 'mk_note(b)', 'mk_note'),
     ('()', 'set of Card', 'bump_all()', 'bump_all'),
     ('()', 'int64', "with d := (insert Note { body := 'g' }) select count((group Card by .cost))", True),
+    ('()', 'int64', "count((with d := (insert Note { body := 'g2' }) group Card by .cost))", True),
+    ('()', 'int64', "count((with d := bump_all() group Card by .cost))", 'bump_all'),
     ('()', 'int64', 'count(User)', False),
     ('(b: str)', 'str', "b ++ '!'", False),
     ('()', 'set of Note', "(select (insert Note { body := 'n' }))", True),
